@@ -68,6 +68,9 @@ type evInfo struct {
 	// references of a deletion request
 	eRefs []string
 	aRefs []string
+	// focusOnly events are not part of the main alphabet; they are explored in the second, smaller
+	// "focus" exploration (together with the context events named in focusLabels)
+	focusOnly bool
 }
 
 func (e *evInfo) String() string { return e.label + " (" + e.desc + ")" }
@@ -144,7 +147,7 @@ func addEv(label, desc string, author int, kind, t int64, tags ...mocrelay.Tag) 
 	}
 	cls := classify(kind, tags)
 	in := &evInfo{idx: len(sigma), label: label, desc: desc, ev: ev, class: cls, author: author, t: t,
-		addr: specAddr(kind, ev.Pubkey, cls, tags)}
+		addr: specAddr(kind, ev.Pubkey, cls, tags), focusOnly: addingFocus}
 	if kind == 5 {
 		for _, tg := range tags {
 			if len(tg) >= 2 && tg[0] == "e" {
@@ -210,6 +213,56 @@ func init() {
 	// must stay, stay listed and keep blocking what it references
 	addEv("dQK", "Q kind 5 @3 e:<dR1> (other author's deletion request)", Q, 5, 3, tag("e", evID("dR1")))
 	addEv("dPK", "P kind 5 @3 e:<dQr1> (other author's deletion request)", P, 5, 3, tag("e", evID("dQr1")))
+}
+
+// pTarget is the value of the repeated p tag of event pt.
+var pTarget = shaHex("verif-cache-p-target")
+
+var addingFocus bool
+
+// focusLabels is the alphabet of the second exploration: the focus-only events plus the context
+// they need (older/newer versions of the same address, fillers of both authors for eviction).
+var focusLabels = []string{"r2", "q1", "a1", "a3", "v2", "pt", "dPt", "a2d", "aY", "dQv2", "dQa1", "xt", "x1"}
+
+func init() {
+	P, Q := authorP, authorQ
+	tag := func(s ...string) mocrelay.Tag { return mocrelay.Tag(s) }
+	addingFocus = true
+	defer func() { addingFocus = false }()
+	// an event whose tags repeat one (name,value) pair, followed by a tag value nobody else carries:
+	// the same index key occurs twice, the index must still forget ALL its keys when it leaves
+	addEv("pt", "P kind 1 @2 tags [p,X,hint],[p,X,hint2],[t,z]", P, 1, 2, tag("p", pTarget, "hint"), tag("p", pTarget, "hint2"), tag("t", "z"))
+	addEv("dPt", "P kind 5 @3 e:<pt>", P, 5, 3, tag("e", evID("pt")))
+	// the same shape on a replaceable kind: it leaves when the newer version x1 arrives
+	addEv("xt", "P kind 10002 @1 tags [p,X,h],[p,X,h2],[t,w] (older version of x1)", P, 10002, 1, tag("p", pTarget, "h"), tag("p", pTarget, "h2"), tag("t", "w"))
+	// two d tags: the address is given by the FIRST one (d=x); a d=y event is a different address
+	addEv("a2d", "P kind 30000 @2 tags [d,x],[d,y] (address d=x)", P, 30000, 2, tag("d", "x"), tag("d", "y"))
+	addEv("aY", "P kind 30000 d=y @1", P, 30000, 1, tag("d", "y"))
+	// deletion requests of Q naming P's replaceable / addressable event by id
+	addEv("dQv2", "Q kind 5 @3 e:<v2> (other author's replaceable event by id)", Q, 5, 3, tag("e", evID("v2")))
+	addEv("dQa1", "Q kind 5 @3 e:<a1> (other author's addressable event by id)", Q, 5, 3, tag("e", evID("a1")))
+}
+
+func mainAlphabet() []int {
+	var out []int
+	for _, in := range sigma {
+		if !in.focusOnly {
+			out = append(out, in.idx)
+		}
+	}
+	return out
+}
+
+func focusAlphabet() []int {
+	var out []int
+	for _, l := range focusLabels {
+		in, ok := byLabel[l]
+		if !ok {
+			panic("focus alphabet names an unknown event: " + l)
+		}
+		out = append(out, in.idx)
+	}
+	return out
 }
 
 func labelsOf(hist []uint8) []string {
